@@ -276,6 +276,26 @@ Proof.
   unfold eset_v. cbn [e_v]. apply PgInv_set_st. apply new_engine_inv.
 Qed.
 
+(* Loop over a persister: the ONE deferred Finish saves the session of the engine Loop ends with — by
+   loop_engine_is_requests the request driver's session after the last request made *)
+Lemma loop_stored_is_final_session c res :
+  e_initd (snd res) = true ->
+  loop_stored c res = Some (snap_of (v_st (e_v (snd res))) (v_ca (e_v (snd res)))).
+Proof. intros Hi. unfold loop_stored, loop_saved, eng_finish. rewrite Hi. reflexivity. Qed.
+
+Theorem loop_stored_is_requests rs c fuel initial reader :
+  let e := loop_persisted_init c in
+  let inputs := loop_inputs initial reader in
+  let made := loop_prefix true (long_resps fuel rs c e inputs) in
+  let e_last := eng_after fuel rs c e (firstn (List.length made) inputs) in
+  Forall no_exec_error made -> e_initd e_last = true ->
+  loop_stored c (eng_loop rs c fuel e initial reader) = Some (snap_of (v_st (e_v e_last)) (v_ca (e_v e_last))).
+Proof.
+  intros e inputs made e_last Hne Hi.
+  pose proof (loop_engine_is_requests rs c fuel e initial reader Hne) as He. fold inputs made e_last in He.
+  rewrite loop_stored_is_final_session; rewrite He; [reflexivity|exact Hi].
+Qed.
+
 (* ================================================================ 2. C01 ===== *)
 Lemma resp_chunk_cases r :
   resp_chunk r = [] \/ resp_chunk r = r_out r \/ resp_chunk r = r_out r ++ [LF].
